@@ -40,12 +40,16 @@ SLOTS = [
 EXPECTED_COUNT = {(STACKING, '_dispatch'): 3, (STACKING, '_dispatch_children'): 1,
                   (DRAW, 'draw_stacking_context'): 6, (DRAW, 'draw_inline_level'): 6}
 
-# used when the source is outside the AST subset (graph fallback): the tuples as of WeasyPrint 65
+# The tuples as of the last synchronisation with /repo (a9887a3).  Used when a function has another number of
+# box-class isinstance tests than the model knows (EXPECTED_COUNT): the slots are then aligned in order with the
+# tests whose tuple is the known one, the table is still written — so that the model stays the last synchronised
+# one and the correspondence can show the behavioural difference on a concrete input — and the extraction is
+# reported as failed (the model no longer mirrors the function test for test).
 FALLBACK = {
     'dispStackingClass': ['InlineBlockBox', 'InlineFlexBox', 'InlineGridBox'],
     'dispBlockLevel': ['BlockLevelBox'], 'dispCell': ['TableCellBox'], 'dispParent': ['ParentBox'],
     'drawOwnDecoration': ['BlockBox', 'MarginBox', 'InlineBlockBox', 'TableCellBox', 'FlexContainerBox',
-                          'ReplacedBox'],
+                          'GridContainerBox', 'ReplacedBox'],
     'drawPage': ['PageBox'], 'drawTable': ['TableBox'], 'drawInline': ['InlineBox'],
     'drawReplaced': ['ReplacedBox'], 'drawLine': ['LineBox'],
     'dilAllowed': ['InlineBlockBox', 'InlineFlexBox', 'InlineGridBox'],
@@ -91,23 +95,50 @@ class _Sites(ast.NodeVisitor):
         self.generic_visit(node)
 
 
+def align(slots, sites):
+    """Slots of one function (in source order) against the tests found: every slot takes the next test whose
+    tuple is the known one, else keeps the known tuple.  -> ({slot: tuple}, [description of what did not fit])"""
+    out, problems, position = {}, [], 0
+    used = set()
+    for slot in slots:
+        for k in range(position, len(sites)):
+            if sites[k][2] == FALLBACK[slot]:
+                out[slot] = sites[k][2]
+                used.add(k)
+                position = k + 1
+                break
+        else:
+            out[slot] = list(FALLBACK[slot])
+            problems.append(f'no test isinstance(·, ({", ".join(FALLBACK[slot])})) for slot {slot}')
+    for k, (line, _, names) in enumerate(sites):
+        if k not in used:
+            problems.append(f'unmodelled test isinstance(·, ({", ".join(names)})) at line {line}')
+    return out, problems
+
+
 def ast_sites():
-    out, shas = {}, []
-    cache = {}
+    """-> ({slot: class tuple}, span shas, problems).  `problems` is non-empty when a function has another
+    number of box-class tests than the model mirrors (the table is then aligned on the known tuples)."""
+    out, shas, problems = {}, [], []
+    by_function = {}
     for slot, rel, func_name, index in SLOTS:
-        key = (rel, func_name)
-        if key not in cache:
-            func = find_function(parse(rel), func_name)
-            visitor = _Sites()
-            visitor.visit(func)
-            sites = [names for _, _, names in sorted(visitor.sites)]
-            if len(sites) != EXPECTED_COUNT[key]:
-                raise ExtractionError(
-                    f'{func_name}: {len(sites)} box-class isinstance tests, expected {EXPECTED_COUNT[key]}')
-            cache[key] = sites
-            shas.append(span_sha(rel, func))
-        out[slot] = cache[key][index]
-    return out, '-'.join(shas)
+        by_function.setdefault((rel, func_name), []).append((index, slot))
+    for (rel, func_name), slots in by_function.items():
+        func = find_function(parse(rel), func_name)
+        visitor = _Sites()
+        visitor.visit(func)
+        sites = sorted(visitor.sites)
+        shas.append(span_sha(rel, func))
+        names = [slot for _, slot in sorted(slots)]
+        if len(sites) == EXPECTED_COUNT[(rel, func_name)]:
+            for index, slot in slots:
+                out[slot] = sites[index][2]
+        else:
+            aligned, what = align(names, sites)
+            out.update(aligned)
+            problems.append(f'{func_name}: {len(sites)} box-class isinstance tests, the model mirrors '
+                            f'{EXPECTED_COUNT[(rel, func_name)]} ({"; ".join(what)})')
+    return out, '-'.join(shas), problems
 
 
 def box_classes():
@@ -156,12 +187,14 @@ def anchors_tuple():
 
 def generate():
     boxes, classes = box_classes()
+    problems = []
     try:
-        sites, sha = ast_sites()
-        source = 'ast'
+        sites, sha, problems = ast_sites()
+        source = 'ast' if not problems else 'ast, aligned on the known tuples'
     except ExtractionError as exc:
         sites, sha = dict(FALLBACK), 'fallback'
-        source = f'fallback ({exc})'
+        source = 'fallback'
+        problems = [str(exc)]
     names = [c.__name__ for c in classes]
     lines = [
         f'/- GENERATED by py/extract/stack_kinds.py from {STACKING}, {DRAW}, {ANCHORS} (span sha {sha}) and the class',
@@ -209,5 +242,8 @@ def generate():
     lines.append('')
     lines += ['end Kind', 'end Wp.Gen', '']
     changed = write_if_changed('StackKinds', '\n'.join(lines))
+    if problems:
+        # the table is written (last synchronised model), the obligation "the model mirrors the source" is broken
+        raise ExtractionError('; '.join(problems))
     return {'name': 'StackKinds', 'changed': changed, 'source': source, 'sha256_of_source_span': sha,
             'entries': len(names) * (len(SLOTS) + 1)}
